@@ -51,7 +51,8 @@ PROP = {
                   "step between v and 29 names are unchanged (top level and inside dns/dhcp/clients/querylog/"
                   "statistics/http/filtering), nothing unnamed appears; for class (b): the upgrade succeeds, equals "
                   "the documented result, and package home's loader accepts the bytes and reads schema 29. "
-                  "Exploration, no absence claim.",
+                  "Exploration, no absence claim."
+                  " The part 'startup' runs the real start-up path (parseConfig: read, upgrade, write back, load) on the repository's historical configurations of every schema version with generated deletions: the start that upgrades must end with the same running configuration as the next start, the file is stamped and not changed again, a failing start leaves an old or a current file.",
     "level_note": "Trusts yaml.v3 (decoding, and encoding of the generated input) and x/crypto/bcrypt. Step 5 "
                   "(bcrypt, ~50 ms/hash) is entered only by TestVFC13Auth (30 quick / 8x60 thorough cases, two split "
                   "points each); all other cases of schemas 0..4 carry no auth_pass. Documents using YAML "
